@@ -1117,9 +1117,9 @@ Section DelivMain.
     RG st /\ WC st /\ WT st /\ UDfull st (threads st) /\ cnt (hl st) (threads st) = 0 /\
     cnt (kwbad ev_bad) (threads st) = 0 /\ (forall s, DOp ev_bad st (threads st) s) /\ AO st.
 
-  Lemma AO_exec : forall st i x st1 push sp, AO st -> execf st i x = Some (st1, push, sp) -> AO st1.
+  Lemma AO_exec : forall st i x st1 push sp, RG st -> AO st -> execf st i x = Some (st1, push, sp) -> AO st1.
   Proof.
-    intros st i x st1 push sp H He. unfold AO in *.
+    intros st i x st1 push sp HR H He. unfold AO in *.
     assert (Hgen : forall a, log st1 = a ++ log st -> (forall t e l, In (GAccept t e l) a -> forall s, In s l -> flt s e = FPass) ->
                    forall t e l, In (GAccept t e l) (log st1) -> forall s, In s l -> flt s e = FPass).
     { intros a Hl Ha t e l Hi s Hs. rewrite Hl in Hi. apply in_app_iff in Hi. destruct Hi; eauto. }
@@ -1127,7 +1127,46 @@ Section DelivMain.
       try (solve [apply (Hgen []); [reflexivity|intros ? ? ? []]]);
       try (solve [simpl; intros t0 e0 l0 [Hx|Hi]; [discriminate|eauto]]);
       try (solve [simpl; intros t0 e0 l0 [Hx|[Hx|Hi]]; [discriminate|discriminate|eauto]]).
-    all: match goal with |- ?g => idtac end.
-    Show.
-  Admitted.
+    - (* UnsubscribeSubscription *)
+      assert (HM := RM_remove_locked _ _ _ _ (RG_ext _ (st_log st (if mem s (allsubs st) then [GLeft s] else [])) ltac:(reg_eq_tac) HR) Erm).
+      apply (Hgen (rev (dec_obs r) ++ map GRemoved (rev (rr_close r)) ++ (if mem s (allsubs st) then [GLeft s] else []))).
+      + unfold emit. simpl. rewrite (rm_log _ _ _ HM). simpl. rewrite !app_assoc. reflexivity.
+      + intros t0 e0 l0 Hi. exfalso. apply in_app_iff in Hi. destruct Hi as [Hi|Hi].
+        * apply in_rev in Hi. unfold dec_obs in Hi. destruct (rr_dec r =? 0); simpl in Hi; intuition discriminate.
+        * apply in_app_iff in Hi. destruct Hi as [Hi|Hi]; [apply in_map_iff in Hi; destruct Hi as [y [Hy _]]; discriminate|].
+          destruct (mem s (allsubs st)); simpl in Hi; intuition discriminate.
+    - (* removeClient *)
+      assert (HM := RM_remove_many _ _ _ _ (RG_ext _ (st_log st (map GLeft (of_conn st c (allsubs st)))) ltac:(reg_eq_tac) HR) Erm).
+      apply (Hgen (rev (dec_obs r) ++ map GRemoved (rev (rr_close r)) ++ map GLeft (of_conn st c (allsubs st)))).
+      + unfold emit. simpl. rewrite (rm_log _ _ _ HM). simpl. rewrite !app_assoc. reflexivity.
+      + intros t0 e0 l0 Hi. exfalso. apply in_app_iff in Hi. destruct Hi as [Hi|Hi].
+        * apply in_rev in Hi. unfold dec_obs in Hi. destruct (rr_dec r =? 0); simpl in Hi; intuition discriminate.
+        * apply in_app_iff in Hi. destruct Hi as [Hi|Hi]; apply in_map_iff in Hi; destruct Hi as [y [Hy _]]; discriminate.
+    - (* shutdownResolver *)
+      assert (HM : RM (st_flags st true (rctx st)) st0 r).
+      { eapply RM_detach_many; [eapply RG_ext; [|exact HR]; reg_eq_tac| | |exact Erm]; simpl; auto.
+        apply (NoDup_tids (fun t => t_key (trigs st t))); [apply (rg_keys _ HR)|]. intros k t Hi. apply (rg_ent _ HR _ _ Hi). }
+      apply (Hgen (rev (dec_obs r) ++ map GRemoved (rev (rr_close r)))).
+      + unfold emit. simpl. rewrite (rm_log _ _ _ HM). simpl. rewrite !app_assoc. reflexivity.
+      + intros t0 e0 l0 Hi. exfalso. apply in_app_iff in Hi. destruct Hi as [Hi|Hi].
+        * apply in_rev in Hi. unfold dec_obs in Hi. destruct (rr_dec r =? 0); simpl in Hi; intuition discriminate.
+        * apply in_map_iff in Hi; destruct Hi as [y [Hy _]]; discriminate.
+    - (* doneTriggerFromUpdater *)
+      assert (Hreg0 : In (t_key (trigs st t0), t0) (reg st)).
+      { simpl in Ec. destruct (is_reg st t) eqn:Er; inversion Ec; subst. apply is_reg_true; auto. }
+      assert (HM := RM_detach_locked _ _ _ _ HR Hreg0 Erm).
+      apply (Hgen (rev (dec_obs r) ++ map GRemoved (rev (rr_close r)))).
+      + unfold emit. simpl. rewrite (rm_log _ _ _ HM). simpl. rewrite !app_assoc. reflexivity.
+      + intros t1 e0 l0 Hi. exfalso. apply in_app_iff in Hi. destruct Hi as [Hi|Hi].
+        * apply in_rev in Hi. unfold dec_obs in Hi. destruct (rr_dec r =? 0); simpl in Hi; intuition discriminate.
+        * apply in_map_iff in Hi; destruct Hi as [y [Hy _]]; discriminate.
+    - (* IUpdFilter *)
+      destruct (eval_filter_sub _ _ _ _ _ _ Eflt) as (_ & _ & Hfp).
+      simpl. intros t0 e0 l0 [Hx|Hi]; [inversion Hx; subst; auto|eauto].
+    - (* ISpawn *)
+      apply (Hgen (map (fun s1 => GMissed s1 e) (filter (fun s1 => s_removed (subs st s1)) l))); [reflexivity|].
+      intros t0 e0 l0 Hi. apply in_map_iff in Hi. destruct Hi as [y [Hy _]]. discriminate.
+    - simpl. intros t0 e0 l0 [Hx|[Hx|Hi]]; [discriminate|inversion Hx; subst; intros s1 [<-|[]]; auto|eauto].
+    - simpl. intros t0 e0 l0 [Hx|Hi]; [inversion Hx; subst; intros s1 [<-|[]]; auto|eauto].
+  Qed.
 End DelivMain.
